@@ -15,11 +15,13 @@ RULE = ("sequences (1..6) of VirtualServer edits that change one cert-manager fi
         "and which objects are owned. Non-trivial: a step whose edit requires a write.")
 TRUSTED = ["fake clientsets instead of an API server (conflicts are injected, not emergent); the lister is refreshed from the client after every call"]
 ASSUMPTIONS = ["the informer cache is current when a synchronisation starts"]
-LEVEL_TEXT = ("Lean 4 theorems over the synchronisation model (create / refuse non-owned / update-if-different / collect unneeded): a second "
-              "synchronisation after a successful one performs no write (idempotent); afterwards the object equals the desired one whenever the "
-              "name was free or owned (fresh); an object not controlled by the VirtualServer is never updated or deleted, for every cluster "
-              "content (foreign_untouched); owned Certificates for other secret names are removed (unneeded_removed); a synchronisation "
-              "restarted after any prefix of its writes converges to the same cluster (retry_converges).")
+LEVEL_TEXT = ("Lean 4 theorems over the synchronisation model (create / refuse non-owned / update-if-different / collect unneeded), for every cluster "
+              "content: the cluster after one whole synchronisation is described key by key (syncCert_result); a second synchronisation after a "
+              "successful one performs no write (syncCert_idempotent, syncDns_idempotent); the needed object equals what a first-time "
+              "synchronisation into an empty cluster creates whenever the name was free or owned (syncCert_as_first_time, syncDns_as_first_time); "
+              "an object not controlled by the VirtualServer is never updated or deleted (syncCert_foreign_untouched, syncDns_foreign_untouched), "
+              "also when only an arbitrary sub-sequence of the writes is carried out because of API errors (syncCert_targets, "
+              "interrupted_sync_foreign_untouched); afterwards the VirtualServer controls nothing but the needed object (syncCert_nothing_left).")
 LEVEL_NOTE = "Assurance = weaker of (theorems about the model, correspondence of write actions with the real SyncFnFor, direct measurements on the real code)."
 TECHNIQUE = "Lean 4 proof (idempotence, freshness, frame conditions of the sync function) + model/implementation correspondence on fake clientsets"
 
